@@ -139,6 +139,16 @@ Definition delete_in (m : mst) (s : sp) (id : N) : res mst :=
       end
   end.
 
+(* position of the first item that carries import entry [k] (convert_import_fn_to_local: iter().position(..)) *)
+Fixpoint find_imp (l : list item) (k : N) (pos : N) : option N :=
+  match l with
+  | [] => None
+  | i :: l' => match it_imp i with
+               | Some k' => if N.eqb k' k then Some pos else find_imp l' k (pos + 1)
+               | None => find_imp l' k (pos + 1)
+               end
+  end.
+
 Definition step (m : mst) (o : op) : res (mst * option N) :=
   match o with
   | AddLocal SF fp =>
@@ -190,18 +200,18 @@ Definition step (m : mst) (o : op) : res (mst * option N) :=
       | Some im =>
           if negb (N.eqb (i_sp im) 0) then Panic 6   (* not a function import *)
           else
-            match nthN (s_items (m_f m)) k with      (* D07: the ImportsID is used as FunctionID *)
-            | None => Panic 7
-            | Some it =>
-                if is_local it then Ok (m, None)     (* warn, return false *)
-                else
-                  match delete_in m SF k with
-                  | Panic w => Panic w
-                  | Ok m1 =>
-                      let x := m_f m1 in
-                      Ok (set_sp m1 SF (mkSpace (updN k (fun _ => mkItem k None false fp) (s_items x))
-                                                (s_recalc x) (s_num x) (s_added x) (s_nlocal x)), None)
-                  end
+            (* since the repair of D07 the function is resolved through the import: the first function whose kind
+               is Import with this import id *)
+            match find_imp (s_items (m_f m)) k 0 with
+            | None => Ok (m, None)                   (* warn, return false: already replaced by a local function *)
+            | Some p =>
+                match delete_in m SF p with
+                | Panic w => Panic w
+                | Ok m1 =>
+                    let x := m_f m1 in
+                    Ok (set_sp m1 SF (mkSpace (updN p (fun _ => mkItem p None false fp) (s_items x))
+                                              (s_recalc x) (s_num x) (s_added x) (s_nlocal x)), None)
+                end
             end
       end
   | AddExport _ _ | AddData _ => Ok (m, None)
@@ -209,7 +219,8 @@ Definition step (m : mst) (o : op) : res (mst * option N) :=
   | ItAddGlobal fp =>
       let x := m_g m in
       let id := lenN (s_items x) in
-      Ok (set_sp m SG (mkSpace (s_items x ++ [mkItem id None false fp]) (s_recalc x) (s_num x) (s_added x) (s_nlocal x)), Some id)
+      (* through Module::add_global_internal since the repair of D24: counted as a local global like AddLocal SG *)
+      Ok (set_sp m SG (mkSpace (s_items x ++ [mkItem id None false fp]) (s_recalc x) (s_num x) (s_added x) (s_nlocal x + 1)), Some id)
   end.
 
 Fixpoint run (m : mst) (h : list op) (rets : list (option N)) : res (mst * list (option N)) :=
